@@ -1,0 +1,21 @@
+// Copyright The gittuf Authors
+// SPDX-License-Identifier: Apache-2.0
+
+//go:build verif
+
+// gvc contracts (comment-only, read under the "verif" build tag).
+
+package dsse
+
+//@ # envValid(env, kid): env carries a valid signature by the key with this ID over PAE(payloadType, payload) (A-crypto)
+//@ spec envValid(env *dsse.Envelope, kid string) bool
+//@ spec vKeyID(v dsse.Verifier) string
+
+//@ # Assumed contract of the vendored envelope verifier behind this wrapper: one accepted key per
+//@ # provider key id that has a valid signature, ids pairwise distinct.
+//@ func VerifyEnvelope -> (acc, err)
+//@   trusted
+//@   pure
+//@   ensures forall i :: 0 <= i && i < len(acc) ==> envValid(envelope, acc[i].KeyID) && (exists j :: 0 <= j && j < len(verifiers) && vKeyID(verifiers[j]) == acc[i].KeyID)
+//@   ensures forall a, b :: 0 <= a && a < b && b < len(acc) ==> acc[a].KeyID != acc[b].KeyID
+//@   ensures forall j :: 0 <= j && j < len(verifiers) && envValid(envelope, vKeyID(verifiers[j])) && err == nil ==> (exists i :: 0 <= i && i < len(acc) && acc[i].KeyID == vKeyID(verifiers[j]))
